@@ -104,6 +104,7 @@ type fnEnc struct {
 	litVals  map[string][]ssa.Value
 	localArrV map[*ssa.Alloc]map[int]ssa.Value
 	lastStoreVal ssa.Value
+	lastPre  map[string]string
 	capVal   map[*ssa.FreeVar]Term
 }
 
